@@ -7,6 +7,7 @@ mod udp_swarm;
 mod http_swarm;
 mod valid_until;
 mod export_crash;
+mod access_list;
 
 use std::collections::HashMap;
 
@@ -103,6 +104,7 @@ fn main() {
         "http-swarm" => http_swarm::run(&args),
         "valid-until" => valid_until::run(&args),
         "export-crash" => export_crash::run(&args),
+        "access-list" => access_list::run(&args),
         "export-child" => export_crash::child(&args),
         other => {
             eprintln!("unknown suite {}", other);
